@@ -17,6 +17,7 @@ from engines.polyid.build import dump_mir
 from engines.polyid.interp import Interp, Agg, Cell, Ref, IntV, MirError, short_type
 from engines.polyid.prove import Ideal, prove_zero, factor_nonvanishing, Z3_VERSION
 from engines.polyid.curves import models, Affine, Edwards, Weierstrass, JacobiQuartic, GLS254
+from engines.polyid.curves import legendre, sqrt_mod
 from engines.polyid import replay as RP
 
 MIR = None
@@ -245,6 +246,38 @@ def neutral_affines(model, tag):
     return [model.neutral(tag)]       # Weierstrass, GLS254
 
 
+def has_x0(model):
+    """short Weierstrass y^2 = x^3 + ax + b has (two) finite points with x = 0 iff b is a square"""
+    return isinstance(model, Weierstrass) and legendre(model.bv, model.p) == 1
+
+
+def special_affines(model, tag):
+    """the FINITE special points of a curve (a zero coordinate / low order), as symbolic operands
+    `P on the curve, that coordinate = 0, Z != 0`.
+      Weierstrass: y = 0 would be a point of order 2 (none: odd order); x = 0 exists iff b is a square
+                   (P-256: yes, (0, +-sqrt b); secp256k1: 7 is not a square, no such point) -- ground facts;
+      Edwards:     x = 0 are the neutral and the order-2 point (0,-1) (own cases); y = 0 are the two points of
+                   order 4, (x, 0) with a*x^2 = 1;
+      Jacobi quartic: u = 0 are the two representatives of the neutral (own cases), e = 0 is excluded (b' non-square);
+      GLS254: x = 0 is the neutral N (own case)."""
+    if has_x0(model):
+        y, z = R.sym("y" + tag), R.sym("z" + tag)
+        return [Affine((R.ZERO, y), [model.curve(R.ZERO, y)], [z, y], z, label="x=0")]
+    if isinstance(model, Edwards):
+        x, z = R.sym("x" + tag), R.sym("z" + tag)
+        return [Affine((x, R.ZERO), [model.curve(x, R.ZERO)], [z, x], z, label="order4")]
+    return []
+
+
+def case_kind(case):
+    """which relation between P and Q a binary case asserts"""
+    if case.startswith("P=Q"):
+        return "P=Q"
+    if case.startswith("P=-Q"):
+        return "P=-Q"
+    return "generic"
+
+
 def binop_cases(model):
     G1, G2 = model.generic("1"), model.generic("2")
     cases = [("generic", G1, G2),
@@ -255,9 +288,22 @@ def binop_cases(model):
     cases.append(("P=neutral", N1[0], G2))
     cases.append(("Q=neutral", G1, N2[0]))
     cases.append(("both neutral", N1[0], N2[0]))
+    S1, S2 = special_affines(model, "1"), special_affines(model, "2")
+    if isinstance(model, Weierstrass):
+        for s1, s2 in zip(S1, S2):
+            cases.append(("P:x=0", s1, G2))
+            cases.append(("Q:x=0", G1, s2))
+            cases.append(("P=Q:x=0", s1, model.like("2", s1)))
+            cases.append(("P=-Q:x=0", s1, model.like("2", s1, True)))
+            cases.append(("P:x=0,Q=neutral", s1, N2[0]))
+            cases.append(("P=neutral,Q:x=0", N1[0], s2))
     if isinstance(model, Edwards):
         cases.append(("Q=order2", G1, model.fixed("2", 0, -1, "order2")))
         cases.append(("P=order2", model.fixed("1", 0, -1, "order2"), G2))
+        for s1, s2 in zip(S1, S2):
+            cases.append(("Q=order4", G1, s2))
+            cases.append(("P=order4", s1, G2))
+            cases.append(("P=Q=order4", s1, model.like("2", s1)))
     if isinstance(model, JacobiQuartic):
         cases.append(("Q=neutral+", G1, N2[1]))
         cases.append(("P=neutral+", N1[1], G2))
@@ -309,7 +355,7 @@ def gls_nz(model, ops, extra=()):
 
 def check_expected_gls(acc, g, out, A1, A2, sub, hyps):
     model = g.model
-    case = acc.hint["case"]
+    case = case_kind(acc.hint["case"])
     Q = model.neg(A2) if sub else A2.xy
     if A1.neutral and A2.neutral:
         rel = model.rel_neutral(out)
@@ -339,7 +385,7 @@ def check_expected_gls(acc, g, out, A1, A2, sub, hyps):
 
 def check_expected_w(acc, g, out, A1, A2, sub, hyps, F2):
     model = g.model
-    case = acc.hint["case"]
+    case = case_kind(acc.hint["case"])
     F1 = model.embed(A1)
     if A1.neutral and A2.neutral:
         for lab, t in model.is_neutral(out):
@@ -461,7 +507,19 @@ def unary_cases(model):
         cs.append((N.label, N))
     if isinstance(model, Edwards):
         cs.append(("order2", model.fixed("1", 0, -1, "order2")))
+    for A in special_affines(model, "1"):
+        cs.append((A.label, A))
     return cs
+
+
+def nz_syms(model, A):
+    """symbols that do not vanish in the case of operand A.  On a Weierstrass curve the `generic` case is
+    the complement of the special cases: x != 0 (x = 0 is posed as its own case when such points exist,
+    and is impossible otherwise -- b non-square, ground fact); y != 0 always (odd order)."""
+    nz = {str(n) for n in A.nz if n.op == "sym"}
+    if isinstance(model, Weierstrass) and A.label == "generic":
+        nz.add(str(A.xy[0]))
+    return nz
 
 
 def decide_atoms(out, nzsyms):
@@ -550,7 +608,7 @@ def task_double(gname):
         c1 = Cell(g.point(model.embed(A)))
         it.run(item, [Ref(c1)])
         need(it.prim_count["mul"] >= 1, "%s.set_double executed no field multiplication" % gname)
-        out, undec = decide_atoms(g.fields(c1.val), {str(n) for n in A.nz if n.op == "sym"})
+        out, undec = decide_atoms(g.fields(c1.val), nz_syms(model, A))
         acc = Acc("%s.set_double:%s" % (gname, case), fn_names(it), "set_double(P) represents 2P; case " + case,
                   dict(group=gname, func="set_double", case=case, n=0))
         if undec:
@@ -632,21 +690,24 @@ def task_xdouble(gname, n):
             acc.unknowns.append("undecided selection atoms")
         check_double_expected(acc, g, out, N, [], k=n)
         obs.append(acc.ob())
-    # (b) generic input
-    A = model.generic("1")
+    # (b) generic input, and the finite special points as inputs
+    specials = special_affines(model, "1")
+    if n == 1:
+        for A in [model.generic("1")] + specials:
+            name = "%s.set_xdouble(%d):%s" % (gname, n, A.label)
+            hint = dict(group=gname, func="set_xdouble", case=A.label, n=n)
+            it, val = run_xdouble(g, model.embed(A), 1)
+            need(it.prim_count["mul"] >= 1, "%s.set_xdouble executed no field multiplication" % gname)
+            out, undec = decide_atoms(g.fields(val), nz_syms(model, A))
+            acc = Acc(name, fn_names(it), "set_xdouble(P, 1) represents 2P; case " + A.label, hint)
+            if undec:
+                acc.unknowns.append("undecided selection atoms")
+            check_double_expected(acc, g, out, A, A.hyps)
+            obs.append(acc.ob())
+            consts.update(it.named_consts)
+        return obs, consts
     name = "%s.set_xdouble(%d):generic" % (gname, n)
     hint = dict(group=gname, func="set_xdouble", case="generic", n=n)
-    if n == 1:
-        it, val = run_xdouble(g, model.embed(A), 1)
-        need(it.prim_count["mul"] >= 1, "%s.set_xdouble executed no field multiplication" % gname)
-        out, undec = decide_atoms(g.fields(val), {str(x) for x in A.nz if x.op == "sym"})
-        acc = Acc(name, fn_names(it), "set_xdouble(P, 1) represents 2P", hint)
-        if undec:
-            acc.unknowns.append("undecided selection atoms")
-        check_double_expected(acc, g, out, A, A.hyps)
-        obs.append(acc.ob())
-        consts.update(it.named_consts)
-        return obs, consts
     if g.d["xd"] == "iter":
         raw = [R.sym(cn) for cn in model.coords]
         it, val = run_xdouble(g, raw, n)
@@ -660,7 +721,8 @@ def task_xdouble(gname, n):
             fns |= set(fn_names(it2))
         acc = Acc(name, sorted(fns),
                   "set_xdouble(P, %d) computes exactly the coordinates of set_double applied %d times "
-                  "(for arbitrary coordinate values); with the set_double obligations this gives [2^%d]P" % (n, n, n),
+                  "(for arbitrary coordinate values, hence also for every special point: zero coordinates, low "
+                  "order, neutral); with the set_double obligations this gives [2^%d]P" % (n, n, n),
                   hint, bounds="none: polynomial identity over Z[X,Y,Z,T]; n = %d" % n)
         for lab, o_, r_ in zip(model.coords, out, ref):
             if o_ is r_:
@@ -670,10 +732,19 @@ def task_xdouble(gname, n):
         obs.append(acc.ob())
         return obs, consts
     obs.append(xdouble_cut(g, n, name, hint))
+    # special inputs / special internal states of the cut scheme (only where finite special points exist)
+    for A in specials:
+        obs.append(xdouble_cut(g, n, "%s.set_xdouble(%d):%s" % (gname, n, A.label),
+                               dict(group=gname, func="set_xdouble", case=A.label, n=n), A=A, parts=("entry",)))
+    if has_x0(model):
+        # an intermediate or final point [2^j]P with x = 0: internal state with X = 0 (and Y, Z != 0)
+        obs.append(xdouble_cut(g, n, "%s.set_xdouble(%d):2^jP:x=0" % (gname, n),
+                               dict(group=gname, func="set_xdouble", case="2^jP:x=0", n=n),
+                               zero=(g.d["state"][0],), parts=("state",)))
     return obs, consts
 
 
-def xdouble_cut(g, n, name, hint):
+def xdouble_cut(g, n, name, hint, A=None, zero=(), parts=("entry", "state")):
     """set_xdouble = entry ; body^m ; exit, with an internal representation.
     With J a polynomial in the internal state (found from the curve equation
     of exit(s); any J works as long as the lemmas below hold):
@@ -682,13 +753,26 @@ def xdouble_cut(g, n, name, hint):
       (V)  exit(s) is on the curve when J(s) = 0
       (C)  exit(body(s)) ~ set_double(exit(s)) when J(s) = 0, and
            Z(set_double(exit(s))) = K * Z(exit(body(s)))   (non-degeneracy)
-      (K)  e0 + m = n   (m = loop iterations executed for this n)."""
+      (K)  e0 + m = n   (m = loop iterations executed for this n).
+    parts: "entry" = (E), (I0), (K) for the operand A (default: the generic operand); "state" = (I1), (V), (C)
+    for the free state, or for the special state whose coordinates named in `zero` are 0 (J is always derived
+    from the generic state and then specialised).  Selection atoms (`iszero`) are decided from the declared
+    non-vanishing symbols of the case; an atom that stays undecided makes the obligation inconclusive."""
     from engines.polyid.prove import _poly_to_term, _lift2
     model = g.model
-    A = model.generic("1")
+    special_entry = A is not None
+    if A is None:
+        A = model.generic("1")
     names = g.d["state"]
     fns = set()
     top = g.inner_mod + "::"
+    nzA = nz_syms(model, A)
+    # internal state of a valid non-neutral point: on the Weierstrass (Jacobian) detour Y, Z never vanish (odd
+    # order) and X = 0 is the special state posed separately (or impossible); the other detours have no atoms
+    nzS = set()
+    if isinstance(model, Weierstrass):
+        nzS = {"q" + nm for nm in names if nm not in zero}
+    undec_used = []
 
     def mine(fr):
         return fr.body.name.startswith(top) and fr.body.name.endswith("::set_xdouble")
@@ -701,7 +785,9 @@ def xdouble_cut(g, n, name, hint):
         s_, e_ = rng.fields
         Ref(it_ref.cell, it_ref.path + (0,)).set(IntV(e_.v, e_.bits, e_.signed))
 
-    free = [R.sym("q" + nm) for nm in names]
+    free_g = [R.sym("q" + nm) for nm in names]
+    free = [R.ZERO if nm in zero else s_ for nm, s_ in zip(names, free_g)]
+    zsub = {"q" + nm: R.ZERO for nm in zero}
     st = {}
 
     def hookA(interp, fr, k, it_ref):
@@ -711,12 +797,12 @@ def xdouble_cut(g, n, name, hint):
     it, val = run_xdouble(g, model.embed(A), 2, hookA)
     fns |= set(fn_names(it))
     need("entry" in st, "loop hook did not fire in %s" % name)
-    outA, undecA = decide_atoms(g.fields(val), {"z1"})
+    outA, undecA = decide_atoms(g.fields(val), nzA)
     def hookA1(interp, fr, k, it_ref):
         if mine(fr) and k == 1:
             force_exit(it_ref)
     itA1, valA1 = run_xdouble(g, model.embed(A), 3, hookA1)
-    outA1, _ = decide_atoms(g.fields(valA1), {"z1"})
+    outA1, undecA1 = decide_atoms(g.fields(valA1), nzA)
     cnt = {"k": 0}
 
     def hookB(interp, fr, k, it_ref):
@@ -726,44 +812,61 @@ def xdouble_cut(g, n, name, hint):
     m = cnt["k"]
     need(itB.prim_count["mul"] >= n, "set_xdouble(%d) executed too few multiplications" % n)
 
-    def hookC(interp, fr, k, it_ref):
-        if not mine(fr):
-            return
-        if k == 0:
-            for l, s_ in zip(locs(fr), free):
-                fr.cell(l).val = s_
-        elif k == 1:
-            st["body"] = [fr.cell(l).val for l in locs(fr)]
-            force_exit(it_ref)
-    itC, valC = run_xdouble(g, model.embed(A), 3, hookC)
+    def mkhookC(state):
+        def hookC(interp, fr, k, it_ref):
+            if not mine(fr):
+                return
+            if k == 0:
+                for l, s_ in zip(locs(fr), state):
+                    fr.cell(l).val = s_
+            elif k == 1:
+                st["body"] = [fr.cell(l).val for l in locs(fr)]
+                force_exit(it_ref)
+        return hookC
+    itC, valC = run_xdouble(g, model.embed(A), 3, mkhookC(free))
     need("body" in st and itC.prim_count["mul"] >= 1, "loop body not executed in %s" % name)
-    outC, undecC = decide_atoms(g.fields(valC), set())
+    outC, undecC = decide_atoms(g.fields(valC), nzS)
 
-    def hookD(interp, fr, k, it_ref):
-        if mine(fr) and k == 0:
-            for l, s_ in zip(locs(fr), free):
-                fr.cell(l).val = s_
-            force_exit(it_ref)
-    itD, valD = run_xdouble(g, model.embed(A), 2, hookD)
-    outD, undecD = decide_atoms(g.fields(valD), set())
+    def mkhookD(state):
+        def hookD(interp, fr, k, it_ref):
+            if mine(fr) and k == 0:
+                for l, s_ in zip(locs(fr), state):
+                    fr.cell(l).val = s_
+                force_exit(it_ref)
+        return hookD
+    itD, valD = run_xdouble(g, model.embed(A), 2, mkhookD(free))
+    outD, undecD = decide_atoms(g.fields(valD), nzS)
     itE, valE = run_double(g, outD)
-    outD2, undecE = decide_atoms(g.fields(valE), set())
+    outD2, undecE = decide_atoms(g.fields(valE), nzS)
     fns |= set(fn_names(itE))
     itF, valF = run_double(g, model.embed(A))
-    outF, _ = decide_atoms(g.fields(valF), {"z1"})
+    outF, undecF = decide_atoms(g.fields(valF), nzA)
+    # generic state (for the derivation of J only)
+    if zero:
+        _, valG = run_xdouble(g, model.embed(A), 2, mkhookD(free_g))
+        outG, undecG = decide_atoms(g.fields(valG), {"q" + nm for nm in names})
+    else:
+        outG, undecG = outD, undecD
 
+    what = []
+    if "entry" in parts:
+        what.append("exit(entry(P)) ~ [2^e0]P, the state invariant J holds after entry, e0 + m = %d" % n)
+    if "state" in parts:
+        what.append("the state invariant J is inductive, exit(s) is a valid point and exit(body(s)) ~ "
+                    "set_double(exit(s)) for every state with J(s) = 0" + (" and %s = 0" % ", ".join(zero) if zero else ""))
     acc = Acc(name, sorted(fns),
-              "set_xdouble(P, %d) = exit(body^m(entry(P))): exit(entry(P)) ~ [2^e0]P, the state invariant J is "
-              "inductive, exit(body(s)) ~ set_double(exit(s)) for every state with J(s) = 0, e0 + m = %d" % (n, n),
+              "set_xdouble(P, %d) = exit(body^m(entry(P))): %s%s" % (
+                  n, "; ".join(what),
+                  ("; operand: %s" % A.label) if special_entry else ""),
               hint,
               bounds="identities over Q[internal state variables] modulo the state invariant; loop count executed "
                      "concretely for n = %d" % n)
     # state invariants: the curve equation (and validity relations) of exit(s),
     # with their monomial content removed.  Any polynomials work as long as the
     # lemmas below hold; this is only how they are found.
-    cands = [("curve", model.oncurve(outD))]
+    cands = [("curve", model.oncurve(outG))]
     if hasattr(model, "validity"):
-        cands += model.validity(outD)
+        cands += model.validity(outG)
     hypJ = []
     for lab, raw_t in cands:
         idl = make_ideal(model, [], [raw_t])
@@ -786,81 +889,110 @@ def xdouble_cut(g, n, name, hint):
         hypJ.append(_poly_to_term(stripped, idl.order))
         acc.notes.append("J_%s = %s" % (lab, str(stripped.as_expr())[:200]))
     need(hypJ, "no state invariant found for %s" % name)
+    hypJg = hypJ
+    if zero:
+        hypJ = [t for t in R.substitute(hypJ, zsub) if not R.is_const(t)]
+        need(hypJ, "state invariant degenerates on the special state of %s" % name)
     raw = model.oncurve(outD)
-    # (E)
-    e0 = None
-    for cand, refo in ((1, outF), (0, model.embed(A))):
-        if all(prove_zero(t, make_ideal(model, A.hyps, [t]), Z3_TIMEOUT_MS).ok
-               for _, t in model.same_element(outA, refo)):
-            e0 = cand
-            for lab, t in model.same_element(outA, refo):
-                acc.zero("E:" + lab, t, model, A.hyps)
-            break
-    baseA = outA
-    if e0 is None:
-        # the exit path may include a fixed translation (GLS254 adds N on exit):
-        # take one loop iteration as the base case, exit(body(entry(P))) ~ 2P
-        if all(prove_zero(t, make_ideal(model, A.hyps, [t]), Z3_TIMEOUT_MS).ok
-               for _, t in model.same_element(outA1, outF)):
-            e0 = 0
-            baseA = outA1
-            for lab, t in model.same_element(outA1, outF):
-                acc.zero("E1:" + lab, t, model, A.hyps)
-            acc.notes.append("base case taken after one loop iteration")
-            if m < 1:
-                acc.fail("no loop iteration for n = %d" % n)
-    outA = baseA
-    if e0 is None:
-        acc.fail("exit(entry(P)) is neither P nor 2P, and exit(body(entry(P))) is not 2P")
-    else:
-        acc.zero("I0:on-curve", model.oncurve(outA), model, A.hyps)
-        nzA = list(A.nz)
-        if isinstance(model, GLS254):
-            nzA = gls_nz(model, [A], [A.xy[0] + 1])
-        elif not isinstance(model, Weierstrass):
-            nzA += [d for _, d in model.law(A.xy, A.xy)]
-        acc.nonvanishing("E:Z", outA[2], model, A.hyps, nzA)
-        if e0 + m != n:
-            acc.fail("doubling count: entry %d + %d loop iterations != n = %d" % (e0, m, n))
-    # (I0), (I1), (V)
-    sub_e = dict(zip(["q" + nm for nm in names], st["entry"]))
-    sub_b = dict(zip(["q" + nm for nm in names], st["body"]))
-    for i, J in enumerate(hypJ):
-        acc.zero("I0:J%d(entry)" % i, R.substitute([J], sub_e)[0], model, A.hyps)
-        acc.zero("I1:J%d(body(s))" % i, R.substitute([J], sub_b)[0], model, hypJ)
-    acc.zero("V:exit(s) on curve", raw, model, hypJ)
-    if hasattr(model, "validity"):
-        for lab, t in model.validity(outD):
-            acc.zero("V:" + lab, t, model, hypJ)
-    # (C)
-    for lab, t in model.same_element(outC, outD2):
-        acc.zero("C:" + lab, t, model, hypJ)
-    if model.family == "jq":
-        vi = model.represents(outC, model.law((R.ONE, R.ZERO), (R.ONE, R.ZERO)))[-1]
-        acc.zero("C:" + vi[0], vi[1], model, hypJ)
-    ok = False
-    try:
-        ideal = make_ideal(model, hypJ, [outD2[2], outC[2]])
-        zc = ideal.poly(outC[2])
-        zd = ideal.poly(outD2[2])
-        Rg, gens, K, H = ideal.ring()
-        if model.char2:
-            R2, H2 = ideal._ring2
-            q2, r2 = ideal._to2(zd, R2).div([ideal._to2(zc, R2)] + H2)
-            q, r = [_lift2(q2[0], Rg)], _lift2(r2, Rg)
+    if "entry" in parts:
+        # (E)
+        e0 = None
+        baseA = outA
+        if special_entry and isinstance(model, Weierstrass):
+            # special operand: oracle = the tangent rule itself (not the code's set_double)
+            for cand, ids in ((1, model.represents(outA, model.tangent(A.xy))),
+                              (0, model.proportional(outA, model.embed(A)))):
+                if all(prove_zero(t, make_ideal(model, A.hyps, [t]), Z3_TIMEOUT_MS).ok for _, t in ids):
+                    e0 = cand
+                    for lab, t in ids:
+                        acc.zero("E:" + lab, t, model, A.hyps)
+                    break
+            undec_used += undecA
         else:
-            q, r = zd.div([zc] + H)
-        if r == 0:
-            Kt = _poly_to_term(q[0], ideal.order)
-            ok = acc.zero("C:Z(dbl(exit s)) = K*Z(exit(body s))", outD2[2] - Kt * outC[2], model, hypJ)
-            acc.notes.append("K = %s" % str(q[0].as_expr())[:200])
-    except Exception as e:  # noqa
-        acc.unknowns.append("non-degeneracy certificate search failed: %s" % e)
-    if not ok and not acc.fails and not acc.unknowns:
-        acc.unknowns.append("no non-degeneracy certificate for the loop body")
-    if undecA or undecC or undecD or undecE:
-        acc.trusted.append("selection atoms on internal Z coordinates resolved to `non-zero` (valid non-neutral "
-                           "state: the group has odd order)")
+            for cand, refo in ((1, outF), (0, model.embed(A))):
+                if all(prove_zero(t, make_ideal(model, A.hyps, [t]), Z3_TIMEOUT_MS).ok
+                       for _, t in model.same_element(outA, refo)):
+                    e0 = cand
+                    for lab, t in model.same_element(outA, refo):
+                        acc.zero("E:" + lab, t, model, A.hyps)
+                    undec_used += undecA + (undecF if cand == 1 else [])
+                    break
+            if e0 is None:
+                # the exit path may include a fixed translation (GLS254 adds N on exit):
+                # take one loop iteration as the base case, exit(body(entry(P))) ~ 2P
+                if all(prove_zero(t, make_ideal(model, A.hyps, [t]), Z3_TIMEOUT_MS).ok
+                       for _, t in model.same_element(outA1, outF)):
+                    e0 = 0
+                    baseA = outA1
+                    for lab, t in model.same_element(outA1, outF):
+                        acc.zero("E1:" + lab, t, model, A.hyps)
+                    acc.notes.append("base case taken after one loop iteration")
+                    undec_used += undecA1 + undecF
+                    if m < 1:
+                        acc.fail("no loop iteration for n = %d" % n)
+        outA = baseA
+        if e0 is None:
+            acc.fail("exit(entry(P)) is neither P nor 2P, and exit(body(entry(P))) is not 2P")
+            undec_used += undecA + undecF
+        else:
+            acc.zero("I0:on-curve", model.oncurve(outA), model, A.hyps)
+            nzA_ = list(A.nz)
+            if isinstance(model, GLS254):
+                nzA_ = gls_nz(model, [A], [A.xy[0] + 1])
+            elif not isinstance(model, Weierstrass):
+                nzA_ += [d for _, d in model.law(A.xy, A.xy)]
+            acc.nonvanishing("E:Z", outA[2], model, A.hyps, nzA_)
+            if e0 + m != n:
+                acc.fail("doubling count: entry %d + %d loop iterations != n = %d" % (e0, m, n))
+        sub_e = dict(zip(["q" + nm for nm in names], st["entry"]))
+        for i, J in enumerate(hypJg):
+            acc.zero("I0:J%d(entry)" % i, R.substitute([J], sub_e)[0], model, A.hyps)
+    if "state" in parts:
+        # (I1), (V)
+        sub_b = dict(zip(["q" + nm for nm in names], st["body"]))
+        for i, J in enumerate(hypJg):
+            acc.zero("I1:J%d(body(s))" % i, R.substitute([J], sub_b)[0], model, hypJ)
+        acc.zero("V:exit(s) on curve", raw, model, hypJ)
+        if hasattr(model, "validity"):
+            for lab, t in model.validity(outD):
+                acc.zero("V:" + lab, t, model, hypJ)
+        if isinstance(model, Weierstrass):
+            # exit(s) is a finite point with a non-zero Y (valid operand for the addition formulas)
+            nzq = [free_g[i] for i, nm in enumerate(names) if nm not in zero]
+            acc.nonvanishing("V:Y(exit s)", outD[1], model, hypJ, nzq)
+            acc.nonvanishing("V:Z(exit s)", outD[2], model, hypJ, nzq)
+        # (C)
+        for lab, t in model.same_element(outC, outD2):
+            acc.zero("C:" + lab, t, model, hypJ)
+        if model.family == "jq":
+            vi = model.represents(outC, model.law((R.ONE, R.ZERO), (R.ONE, R.ZERO)))[-1]
+            acc.zero("C:" + vi[0], vi[1], model, hypJ)
+        ok = False
+        try:
+            ideal = make_ideal(model, hypJ, [outD2[2], outC[2]])
+            zc = ideal.poly(outC[2])
+            zd = ideal.poly(outD2[2])
+            Rg, gens, K, H = ideal.ring()
+            if model.char2:
+                R2, H2 = ideal._ring2
+                q2, r2 = ideal._to2(zd, R2).div([ideal._to2(zc, R2)] + H2)
+                q, r = [_lift2(q2[0], Rg)], _lift2(r2, Rg)
+            else:
+                q, r = zd.div([zc] + H)
+            if r == 0:
+                Kt = _poly_to_term(q[0], ideal.order)
+                ok = acc.zero("C:Z(dbl(exit s)) = K*Z(exit(body s))", outD2[2] - Kt * outC[2], model, hypJ)
+                acc.notes.append("K = %s" % str(q[0].as_expr())[:200])
+        except Exception as e:  # noqa
+            acc.unknowns.append("non-degeneracy certificate search failed: %s" % e)
+        if not ok and not acc.fails and not acc.unknowns:
+            acc.unknowns.append("no non-degeneracy certificate for the loop body")
+        undec_used += undecC + undecD + undecE + undecG
+    if undec_used:
+        acc.unknowns.append("undecided selection atoms: %s" % "; ".join(sorted({str(a)[:120] for a in undec_used}))[:400])
+    if isinstance(model, Weierstrass):
+        acc.trusted.append("selection atoms on the internal (Jacobian) Y, Z coordinates resolved to `non-zero` for "
+                           "a valid non-neutral state (the group has odd order); X = 0 is a separate case")
     acc.trusted.extend(model.trusted)
     acc.trusted.append("composition of the segment lemmas by induction on the loop counter (meta-argument)")
     return acc.ob()
@@ -1043,6 +1175,171 @@ def task_operators(gname):
 
 
 # --------------------------------------------------------------------------
+# constructors from coordinates (Weierstrass curves: set_affine / set_projective and
+# their Option wrappers from_affine / from_projective)
+
+CTOR_FUNCS = ("set_projective", "set_affine")
+
+
+def impl_item(module, method):
+    """MIR item of an inherent function `module::<impl ..>::method` (any signature)"""
+    out = [nm for nm in MIR.by_last.get(method, []) if nm.startswith(module + "::<impl")
+           and any(kind == "fn" for kind, _, _ in MIR.items[nm])]
+    return (out[0], 0) if len(out) == 1 else None
+
+
+def has_ctors(gname):
+    d = GROUPS[gname]
+    return (not d["wrap"]) and all(impl_item(d["module"], f) for f in CTOR_FUNCS)
+
+
+def decide_flag_atoms(terms_, model, hyps, nzsyms, offcurve=None):
+    """decide the `iszero` atoms of a constructor: a monomial in non-vanishing symbols is non-zero; a member
+    of the ideal of the case hypotheses is zero (z3-checked certificate); in the off-curve case an atom whose
+    argument is +-(the curve polynomial of the input) is false by the hypothesis of the case.
+    Returns (resolved terms, undecided atoms, seconds, queries)."""
+    undec = []
+    stat = [0.0, 0]
+
+    def decide(atom):
+        t = atom.args[0]
+        _, und = decide_atoms([R.ite(atom, R.ONE, R.ZERO)], nzsyms)
+        if not und:
+            return False
+        res = prove_zero(t, make_ideal(model, hyps, [t]), Z3_TIMEOUT_MS)
+        stat[0] += res.seconds
+        stat[1] += res.queries
+        if res.ok:
+            return True
+        if offcurve is not None:
+            for sg in (1, -1):
+                d = t - offcurve if sg == 1 else t + offcurve
+                res = prove_zero(d, make_ideal(model, [], [d]), Z3_TIMEOUT_MS)
+                stat[0] += res.seconds
+                stat[1] += res.queries
+                if res.ok:
+                    return False
+        undec.append(atom)
+        return False
+    res = R.resolve(terms_, decide)
+    return res, undec, stat[0], stat[1]
+
+
+def ctor_cases(model, func):
+    """(case label, input coordinate terms, hypotheses, non-vanishing symbols, expectation, off-curve polynomial)
+    expectation: ("point", fields) accepted, stored == fields exactly; ("neutral",) accepted, a valid neutral is
+    stored; ("reject",) flag 0 and a valid neutral is stored"""
+    X, Y, Z = R.sym("X"), R.sym("Y"), R.sym("Z")
+    cs = []
+    ops = [model.generic("1")] + special_affines(model, "1")
+    if func == "set_affine":
+        for A in ops:
+            x, y = A.xy
+            cs.append(("valid" if A.label == "generic" else "valid:" + A.label, [x, y], A.hyps, set(),
+                       ("point", [x, y, R.ONE]), None))
+        cs.append(("off-curve", [X, Y], [], set(), ("reject",), model.curve(X, Y)))
+        return cs
+    for A in ops:
+        F = model.embed(A)
+        cs.append(("valid" if A.label == "generic" else "valid:" + A.label, F, A.hyps, nz_syms(model, A) - {"x1"},
+                   ("point", F), None))
+    # "this function accepts any (X:Y:0) triplet as a representation of the point-at-infinity"
+    cs.append(("Z=0", [X, Y, R.ZERO], [], {"X"}, ("neutral",), None))
+    cs.append(("X=Z=0", [R.ZERO, Y, R.ZERO], [], {"Y"}, ("neutral",), None))
+    cs.append(("Y=Z=0", [X, R.ZERO, R.ZERO], [], {"X"}, ("neutral",), None))
+    cs.append(("X=Y=Z=0", [R.ZERO, R.ZERO, R.ZERO], [], set(), ("neutral",), None))
+    cs.append(("off-curve", [X, Y, Z], [], {"Z"}, ("reject",), model.oncurve([X, Y, Z])))
+    return cs
+
+
+def task_ctor(gname):
+    g = G(gname)
+    model = g.model
+    obs = []
+    garbage = [R.sym("g" + cn) for cn in model.coords]       # previous contents of the receiver
+    for func in CTOR_FUNCS:
+        item = impl_item(g.module, func)
+        for case, inp, hyps, nzs, expect, offc in ctor_cases(model, func):
+            it = g.interp()
+            c1 = Cell(g.point(garbage))
+            rv = it.run(item, [Ref(c1)] + list(inp))
+            need(it.prim_count["iszero"] >= 1 and it.prim_count["select"] >= 3,
+                 "%s.%s: no equation test / conditional store executed" % (gname, func))
+            need(hasattr(rv, "cond"), "%s.%s does not return a flag" % (gname, func))
+            res, undec, secs, nq = decide_flag_atoms(g.fields(c1.val) + [rv.cond], model, hyps, nzs, offc)
+            out, flag = res[:-1], res[-1]
+            acc = Acc("%s.%s:%s" % (gname, func, case), fn_names(it),
+                      {"point": "%s accepts a valid finite point (flag all-ones) and stores exactly the given "
+                                "coordinates; case %s",
+                       "neutral": "%s accepts (X:Y:0) as the point at infinity and stores a VALID neutral "
+                                  "(X = Z = 0, Y != 0); case %s",
+                       "reject": "%s rejects coordinates that do not satisfy the curve equation (flag 0) and "
+                                 "leaves a valid neutral; case %s"}[expect[0]] % (func, case),
+                      dict(group=gname, func=func, case=case, n=0))
+            acc.secs += secs
+            acc.queries += nq
+            for a_ in undec:
+                acc.fail("selection atom not decided by the case: %s" % str(a_)[:160])
+            if flag not in (R.TRUE, R.FALSE):
+                acc.fail("flag not decided: %s" % str(flag)[:160])
+            elif (flag is R.TRUE) != (expect[0] != "reject"):
+                acc.fail("returned flag is %s" % ("all-ones" if flag is R.TRUE else "0"))
+            acc.nchecks += 1
+            if R.atoms(out):
+                acc.fail("stored coordinates still depend on a selection")
+            elif expect[0] == "point":
+                for lab, o_, e_ in zip(model.coords, out, expect[1]):
+                    if o_ is e_:
+                        acc.nchecks += 1
+                    else:
+                        acc.zero(lab, o_ - e_, model, [])
+            else:
+                for lab, t in model.is_neutral(out):
+                    acc.zero(lab, t, model, hyps)
+                acc.nonvanishing("Y", out[1], model, hyps, [])
+                if set(R.symbols(out)) & {str(x) for x in garbage}:
+                    acc.fail("previous contents of the receiver survive")
+            obs.append(acc.ob())
+    # Option wrappers: Some(stored point) iff the flag is non-zero
+    acc = Acc("%s.constructors:wrappers" % gname, [], "from_projective / from_affine return Some(P) with P the "
+              "point stored by set_projective / set_affine when the flag is non-zero, None when it is 0",
+              dict(group=gname, func="from_projective", case="wrappers", n=0),
+              bounds="none: the wrappers are executed with the set_* function replaced by a marker")
+    fns = set()
+    for wrapper, inner, nargs in (("from_projective", "set_projective", 3), ("from_affine", "set_affine", 2)):
+        item = impl_item(g.module, wrapper)
+        if item is None:
+            acc.fail("no MIR for %s" % wrapper)
+            continue
+        marker = [R.sym("m" + cn) for cn in model.coords]
+        for flagv in (0, 0xFFFFFFFF, 1):
+            calls = []
+
+            def hook(interp, fr, cal, args, flagv=flagv, inner=inner, calls=calls):
+                if cal.method == inner and cal.self_short == "Point" and cal.self_mod == g.inner_mod:
+                    calls.append(args[1:])
+                    args[0].set(g.point(marker))
+                    return IntV(flagv, 32)
+                return NotImplemented
+            it = g.interp(call_hook=hook)
+            ins = [R.sym("a%d" % i) for i in range(nargs)]
+            rv = it.run(item, list(ins))
+            fns |= set(fn_names(it))
+            acc.nchecks += 1
+            okc = len(calls) == 1 and all(x is y for x, y in zip(calls[0], ins))
+            if flagv == 0:
+                good = getattr(rv, "disc", None) == 0 and not rv.fields
+            else:
+                good = getattr(rv, "disc", None) == 1 and len(rv.fields) == 1 and \
+                    all(x is y for x, y in zip(g.fields(rv.fields[0]), marker))
+            if not (okc and good):
+                acc.fail("%s with %s returning %#x gives %r" % (wrapper, inner, flagv, rv))
+    acc.functions = sorted(fns)
+    obs.append(acc.ob())
+    return obs, {}
+
+
+# --------------------------------------------------------------------------
 # worker entry
 
 def work(task):
@@ -1059,6 +1356,8 @@ def work(task):
         return task_mul_small(task[1])
     if kind == "operators":
         return task_operators(task[1])
+    if kind == "ctor":
+        return task_ctor(task[1])
     raise Machinery("unknown task %r" % (task,))
 
 
@@ -1072,6 +1371,8 @@ def tasks_for(gname):
     ts += [("double", gname), ("neg", gname)]
     ts += [("xdouble", gname, n) for n in XDOUBLE_N]
     ts += [("mul_small", gname), ("operators", gname)]
+    if has_ctors(gname):
+        ts.append(("ctor", gname))
     return ts
 
 
@@ -1084,20 +1385,100 @@ ENC["decaf448"] = 56
 ENC["gls254"] = 32
 
 
+# group orders (prime part L, cofactor h); used only to build special points for the native corpus
+# (halving on the odd-order curves, torsion points [L]R on the Edwards curves); checked as ground facts
+ORDERS = {
+    "p256": (0xFFFFFFFF00000000FFFFFFFFFFFFFFFFBCE6FAADA7179E84F3B9CAC2FC632551, 1),
+    "secp256k1": (0xFFFFFFFFFFFFFFFFFFFFFFFFFFFFFFFEBAAEDCE6AF48A03BBFD25E8CD0364141, 1),
+    "ed25519": (2 ** 252 + 27742317777372353535851937790883648493, 8),
+    "ed448": (2 ** 446 - 13818066809895115352007386748515426880336692474882178609894547503885, 4),
+}
+_SPECIALS = {}
+
+
+def c_mul(m, k, P):
+    E = m.c_neutral()
+    for bit in bin(k)[2:]:
+        E = m.c_add(E, E)
+        if bit == "1":
+            E = m.c_add(E, P)
+    return E
+
+
+def concrete_specials(m):
+    """concrete finite special points of a model: dict label -> list of affine points.
+      Weierstrass: "x=0" (if any), "half" = {j: points H with [2^j]H in "x=0"};
+      Edwards: "torsion" = all points of E[h] except the neutral (order 2, 4, and 8 on ed25519),
+               "order4" = the two points with y = 0."""
+    if m.name in _SPECIALS:
+        return _SPECIALS[m.name]
+    sp = {}
+    p = m.p
+    if isinstance(m, Weierstrass):
+        sp["x=0"] = []
+        sp["half"] = {}
+        y0 = sqrt_mod(m.bv, p)
+        if y0:
+            sp["x=0"] = [(0, y0), (0, p - y0)]
+            L, _ = ORDERS[m.name]
+            for j in range(1, 8):
+                hj = pow((L + 1) // 2, j, L)
+                sp["half"][j] = [c_mul(m, hj, T) for T in sp["x=0"]]
+    elif isinstance(m, Edwards):
+        L, h = ORDERS[m.name]
+        rng = random.Random(448)
+        T = None
+        for _ in range(200):
+            T = c_mul(m, L, m.c_rand(rng))
+            if c_mul(m, h // 2, T) != m.c_neutral():      # order exactly h
+                break
+        tors = [c_mul(m, k, T) for k in range(1, h)]
+        sp["torsion"] = tors
+        sp["order4"] = [Q for Q in tors if Q[1] == 0]
+    _SPECIALS[m.name] = sp
+    return sp
+
+
+def special_extras(m, kind, rng, small=False):
+    """special operands that belong to the `generic` symbolic case (any point of the curve): on the Edwards
+    curves every torsion point, mixed-order points R + T, and T with prime-order points [h]R + T"""
+    if not isinstance(m, Edwards):
+        return []
+    sp = concrete_specials(m)
+    tors = sp["torsion"]
+    _, h = ORDERS[m.name]
+    R1, R2 = m.c_rand(rng), m.c_rand(rng)
+    Rp = c_mul(m, h, R1)
+    out = []
+    if kind == "unary":
+        for T in tors:
+            out += [(T, T), (m.c_add(R1, T), T), (m.c_add(Rp, T), T)]
+        return out[:6] if small else out
+    for T in tors:
+        out += [(T, R1), (R2, T), (m.c_add(Rp, T), R2), (Rp, m.c_add(R2, T)), (m.c_add(Rp, T), m.c_neg(Rp))]
+    for T in tors:
+        for U in tors:
+            out.append((T, U))
+    if small:
+        out = out[::7]
+    return out
+
+
 def concrete_instances(g, hint, rng, count=6):
-    """(label, P, Q) concrete affine operands for the case of a candidate"""
+    """(P, Q) concrete affine operands for the case of a candidate"""
     m = g.model
     case = hint["case"]
+    sp = concrete_specials(m) if "x=0" in case or "order4" in case else {}
     out = []
     for i in range(count):
         P, Q = m.c_rand(rng), m.c_rand(rng)
-        if case == "P=Q":
+        if case.startswith("P=Q"):
             Q = P
-        elif case == "P=-Q":
+        elif case.startswith("P=-Q"):
             Q = m.c_neg(P)
         elif case.startswith("P=neutral") or case.startswith("both"):
             P = m.c_neutral()
-        if case.startswith("Q=neutral") or case.startswith("both"):
+        if "Q=neutral" in case or case.startswith("both"):
             Q = m.c_neutral()
         if case in ("neutral", "neutral+"):
             P = m.c_neutral() if case == "neutral" else (1, 0)
@@ -1109,8 +1490,104 @@ def concrete_instances(g, hint, rng, count=6):
             Q = (1, 0)
         if case in ("P=neutral+",):
             P = (1, 0)
+        # finite special points
+        if "x=0" in case and not sp["x=0"]:
+            return []
+        if case in ("x=0", "valid:x=0") or case.startswith(("P:x=0", "P=Q:x=0", "P=-Q:x=0")):
+            P = sp["x=0"][i % 2]
+            if case.startswith("P=Q:"):
+                Q = P
+            elif case.startswith("P=-Q:"):
+                Q = m.c_neg(P)
+        if case in ("Q:x=0", "P=neutral,Q:x=0"):
+            Q = sp["x=0"][(i // 2) % 2]
+        if case == "2^jP:x=0":
+            # every j <= n and both points, whatever `count` is: [2^j]P has x = 0
+            if i == 0:
+                for j in range(1, max(1, hint.get("n", 1)) + 1):
+                    out += [(H, Q) for H in sp["half"][j]]
+            continue
+        if case in ("order4", "P=order4", "P=Q=order4"):
+            P = sp["order4"][i % 2]
+            if case == "P=Q=order4":
+                Q = P
+        if case == "Q=order4":
+            Q = sp["order4"][i % 2]
         out.append((P, Q))
+    if case == "generic":
+        func = hint["func"]
+        unary = func in ("set_double", "set_neg", "set_xdouble", "set_mul_small")
+        out += special_extras(m, "unary" if unary else "binary", rng, small=(func == "operators"))
     return out
+
+
+REJECT = "reject"
+
+
+def ctor_requests(g, hint, rng, count):
+    """native requests for the constructors, through the public API (from_projective / from_affine)"""
+    m = g.model
+    p = m.p
+    func, case = hint["func"], hint["case"]
+    api = {"set_projective": "from_projective", "set_affine": "from_affine", "from_projective": "from_projective"}[func]
+    reqs = []
+
+    def offcurve(P):
+        return (P[0], (P[1] + 1 + rng.randrange(p - 2)) % p)
+    if case == "wrappers":
+        P = m.c_rand(rng)
+        z = m.c_scalar(rng)
+        return [((g.name, "from_projective", 0, m.c_embed(P, z)), P),
+                ((g.name, "from_projective", 0, m.c_embed(offcurve(P), z)), REJECT),
+                ((g.name, "from_affine", 0, list(P)), P), ((g.name, "from_affine", 0, list(offcurve(P))), REJECT)]
+    for i in range(max(count, 4)):
+        P = m.c_rand(rng)
+        z = m.c_scalar(rng)
+        if case.startswith("valid"):
+            if case.endswith("x=0"):
+                sp = concrete_specials(m)["x=0"]
+                if not sp:
+                    return []
+                P = sp[i % 2]
+            if api == "from_affine":
+                reqs.append(((g.name, api, 0, list(P)), P))
+            else:
+                if i == 0:
+                    z = 1
+                F = m.c_embed(P, z)
+                reqs.append(((g.name, api, 0, F), P))
+                Q = m.c_rand(rng)
+                reqs.append(((g.name, "fp:set_add", 0, F + m.c_embed(Q, m.c_scalar(rng))), m.c_add(P, Q)))
+                reqs.append(((g.name, "fp:set_double", 0, F), m.c_add(P, P)))
+        elif case == "off-curve":
+            B = offcurve(P)
+            if i == 1:
+                B = (0, 0)
+            if i == 2:
+                B = (1, 0)
+            if api == "from_affine":
+                reqs.append(((g.name, api, 0, list(B)), REJECT))
+            else:
+                reqs.append(((g.name, api, 0, m.c_embed(B, z)), REJECT))
+        else:
+            # (X:Y:0): the point at infinity
+            xs = {"Z=0": [rng.randrange(1, p), rng.randrange(p), 0], "X=Z=0": [0, rng.randrange(1, p), 0],
+                  "Y=Z=0": [rng.randrange(1, p), 0, 0], "X=Y=Z=0": [0, 0, 0]}[case]
+            if case == "Z=0" and i == 1:
+                xs = [1, 1, 0]
+            reqs.append(((g.name, api, 0, xs), None))
+            # N as an operand of further operations: N + Q = Q, N - Q = -Q, 2N = N, 2N + Q = Q ...
+            Q = m.c_rand(rng)
+            FQ = m.c_embed(Q, m.c_scalar(rng))
+            reqs.append(((g.name, "fp:set_add", 0, xs + FQ), Q))
+            reqs.append(((g.name, "fp:set_sub", 0, xs + FQ), m.c_neg(Q)))
+            reqs.append(((g.name, "fp:op_add_rr", 0, xs + FQ), Q))
+            reqs.append(((g.name, "fp:set_add_affine", 0, xs + list(Q)), Q))
+            reqs.append(((g.name, "fp:set_double", 0, xs), None))
+            reqs.append(((g.name, "fp:set_xdouble", 3, xs), None))
+            reqs.append(((g.name, "fp:set_neg", 0, xs), None))
+            reqs.append(((g.name, "fp:set_mul_small", 5, xs), None))
+    return reqs
 
 
 def native_requests(g, hint, rng, count=6):
@@ -1119,6 +1596,8 @@ def native_requests(g, hint, rng, count=6):
     func = hint["func"]
     reqs = []
     p = m.p
+    if func in CTOR_FUNCS or hint["case"] == "wrappers":
+        return ctor_requests(g, hint, rng, count)
     for P, Q in concrete_instances(g, hint, rng, count):
         z1, z2 = m.c_scalar(rng), m.c_scalar(rng)
         F1 = m.c_embed(P, z1)
@@ -1176,6 +1655,19 @@ def native_requests(g, hint, rng, count=6):
     return reqs
 
 
+def judge(m, vals, exp):
+    """compare a native output (list of integers) with the expectation (affine point / None = neutral /
+    REJECT).  Returns (got, valid, same)"""
+    if len(vals) == 1:                    # the constructor returned None
+        return REJECT, exp == REJECT, exp == REJECT
+    if exp == REJECT:
+        got, valid = m.c_decode(vals)
+        return got, valid, False
+    got, valid = m.c_decode(vals)
+    same = m.c_same(got, exp) if (got is not None or exp is not None) else True
+    return got, valid, same
+
+
 def native_check(rp, g, hint, rng, count=6):
     """returns (n_checked, first mismatch dict or None, error text or None)"""
     reqs = native_requests(g, hint, rng, count)
@@ -1185,19 +1677,19 @@ def native_check(rp, g, hint, rng, count=6):
     m = g.model
     checked = 0
     for (req, exp), r in zip(reqs, res):
+        fkey = req[1] if req[1].startswith(("from_", "fp:")) else hint["func"]
         if r[0] == "error":
             return checked, None, r[1]
         if r[0] == "panic":
-            return checked, dict(key="%s.%s" % (g.name, hint["func"]), request=_fmt(req), native="panic"), None
-        got, valid = m.c_decode(r[1])
+            return checked, dict(key="%s.%s" % (g.name, fkey), request=_fmt(req), native="panic",
+                                 expected_affine=_aff(exp), expected_reject=(exp == REJECT)), None
+        got, valid, same = judge(m, r[1], exp)
         checked += 1
-        same = m.c_same(got, exp) if (got is not None or exp is not None) else True
-        if got is None and exp is None:
-            same = True
         if not valid or not same:
-            return checked, dict(key="%s.%s" % (g.name, hint["func"]), case=hint.get("case"),
+            return checked, dict(key="%s.%s" % (g.name, fkey), case=hint.get("case"),
                                  request=_fmt(req), native_output=[hex(v) for v in r[1]],
                                  native_affine=_aff(got), expected_affine=_aff(exp),
+                                 expected_reject=(exp == REJECT),
                                  valid_representation=bool(valid)), None
     return checked, None, None
 
@@ -1207,7 +1699,9 @@ def _fmt(req):
 
 
 def _aff(P):
-    return None if P is None else [hex(v) for v in P]
+    if P is None or P == REJECT:
+        return None
+    return [hex(v) for v in P]
 
 
 # --------------------------------------------------------------------------
@@ -1475,13 +1969,14 @@ def replay(path):
     if r[0] != "ok":
         print("replay: native run failed: %r" % (r,))
         return 2
-    got, valid = m.c_decode(r[1])
     exp = model.get("expected_affine")
     exp = None if exp is None else tuple(int(v, 16) for v in exp)
-    same = (got is None and exp is None) or (got is not None and exp is not None and m.c_same(got, exp))
-    print("native output:", [hex(v) for v in r[1]])
-    print("native affine:", _aff(got), "valid representation:", valid)
-    print("expected     :", _aff(exp))
+    if model.get("expected_reject"):
+        exp = REJECT
+    got, valid, same = judge(m, r[1], exp)
+    print("native output:", [hex(v) for v in r[1]] if len(r[1]) > 1 else "None (input rejected)")
+    print("native affine:", "-" if got == REJECT else (_aff(got) or "neutral / none"), "valid representation:", valid)
+    print("expected     :", "rejection" if exp == REJECT else (_aff(exp) or "the neutral"))
     if valid and same:
         print("NOT REPRODUCED: the current tree returns the expected group element")
         return 0
